@@ -346,11 +346,16 @@ type scenario struct {
 	conn0  int    // proxy connection count at the start
 	calls  []callObs
 	hsFail []int // per call: handshake failures arranged for it
+	override map[int][]lib.T // per call: answers built by the scenario itself
 	frameLen func(m *XMsg) int
 	wholeOld bool // the first connection is presented to the model from its handshake on
 }
 
 func (h *H) begin(name string, A, B *Node, first *PConn, capBytes int64) *scenario {
+	if first != nil {
+		// everything the client wrote so far has been handed on and recorded
+		waitUntil(time.Second, func() bool { return first.Received() == first.Pos() })
+	}
 	sc := &scenario{name: name, A: A, B: B, m: mark(B), first: first, cap: capBytes, conn0: B.Proxy.NConns()}
 	if first != nil {
 		sc.start = first.Pos()
@@ -411,7 +416,11 @@ func (sc *scenario) finish(h *H, nontrivial bool) {
 	var calls []lib.T
 	for i, c := range sc.calls {
 		fl := sc.frameLen(c.msg)
-		calls = append(calls, lib.L(lib.NI(fl), lib.LS(answersOf(c, sc.hsFail[i]))))
+		ans := answersOf(c, sc.hsFail[i])
+		if o, ok := sc.override[i]; ok {
+			ans = o
+		}
+		calls = append(calls, lib.L(lib.NI(fl), lib.LS(ans)))
 	}
 	var conns []lib.T
 	var lens []lib.T
@@ -588,6 +597,36 @@ func (h *H) rejected(A, B *Node, frameLen func(*XMsg) int, hsCut int) {
 		m := h.msg(8, 2)
 		co := h.call(A, B, m)
 		fails := B.Proxy.NConns() - n0
+		// every attempt after a leading write failure met one reset connection: either the dial itself reported the
+		// reset (RemotingConnectionFailedEvent, RetryCount = attempt number) or the handshake failed (no event)
+		co.dials = fails
+		var ans []lib.T
+		att := 0
+		if len(co.events) > 0 && co.events[0] == "sf" {
+			ans = append(ans, tAnswer(answer{connect: 4, werr: true}))
+			att++
+		}
+		for j := 0; j < fails; j++ {
+			isCF := false
+			for _, r := range co.retry {
+				if r == att {
+					isCF = true
+				}
+			}
+			if isCF {
+				ans = append(ans, tAnswer(answer{connect: 0}))
+			} else {
+				ans = append(ans, tAnswer(answer{connect: 1}))
+			}
+			att++
+		}
+		if co.ok {
+			ans = append(ans, tAnswer(answer{connect: 4, werr: false}))
+		}
+		if sc.override == nil {
+			sc.override = map[int][]lib.T{}
+		}
+		sc.override[len(sc.calls)] = ans
 		sc.calls = append(sc.calls, co)
 		sc.hsFail = append(sc.hsFail, fails)
 		if fails > 0 {
